@@ -27,7 +27,7 @@ import sys
 import numpy as np
 
 from bounded.common import parse_args, Report
-from bounded.c08 import rqa_clauses
+from bounded.c08 import rqa_clauses, run_all, n_workers
 from specs import recurrence_spec as S
 
 PROP = "C07"
@@ -36,6 +36,9 @@ F32 = lambda v: float(np.float32(v))                      # noqa: E731
 ALPH_W = (0.0, F32(0.7), F32(0.1))
 GUARD = 1e-12                   # inexact (random) data: cells with |d-thr| <= GUARD*max(1,|thr|) are free
 GUARD_STD = 1e-5                # threshold_std: the library takes the std of the float32 series
+
+SINGLE_NODE = ("recurrence networks with fewer than two nodes: core Network.__init__ divides by N*(N-1) "
+               "(ZeroDivisionError for any one-node Network) - a limitation of the core class, not judged here")
 
 SETTER = {"threshold": "set_fixed_threshold", "threshold_std": "set_fixed_threshold_std",
           "recurrence_rate": "set_fixed_recurrence_rate",
@@ -196,6 +199,9 @@ def run_rp(rep, C, w):
     shared = None
     prev = None
     first = True
+    if cname == "RecurrenceNetwork" and N - (sum(miss) if mv else 0) < 2:
+        rep.skip(SINGLE_NODE)
+        return
     for vi, (kind, value, via) in enumerate(w["variants"]):
         wit = dict(w, variants=([prev] if (via == "setter" and prev) else []) + [[kind, value, via]])
         P = f"{cname}/{kind}"
@@ -325,7 +331,8 @@ def run_rp(rep, C, w):
                          f"R.mean()={np.asarray(R).mean()}")
             else:
                 for clause, ok, detail in rqa_clauses(obj, R, miss if mv else None,
-                                                      lmins=sorted({1, 2, max(N, 1)}), resample=(vi == 0)):
+                                                      lmins=[2] if vi else sorted({1, 2, max(N, 1)}),
+                                                      resample=(vi == 0)):
                     if not ok:
                         rep.fail(f"{cname}/rqa/{clause}", wit, detail)
 
@@ -447,6 +454,9 @@ def run_jrp(rep, C, w):
     sx, sy = sx[:N0], sy[:N0]
     Dx, Dy = S.distance_matrix(sx, sx, mx), S.distance_matrix(sy, sy, my)
     N = N0 - abs(lag)
+    if cname == "JointRecurrenceNetwork" and N < 2:
+        rep.skip(SINGLE_NODE)
+        return
     kw = dict(metric=(mx, my), lag=lag, silence_level=3)
     if dim:
         kw.update(dim=tuple(dim), tau=tuple(tau))
@@ -503,7 +513,8 @@ def run_jrp(rep, C, w):
                 rep.fail(f"{cname}/{via}/N-equals-adjacency-order", wit, f"N={obj.N}")
         if vi % int(w.get("rqa_every", 1)) == 0 and N >= 1:
             rep.case()
-            for clause, ok, detail in rqa_clauses(obj, JR, None, lmins=sorted({1, 2, N}), resample=(vi == 0)):
+            for clause, ok, detail in rqa_clauses(obj, JR, None, lmins=[2] if vi else sorted({1, 2, N}),
+                                                  resample=(vi == 0)):
                 if not ok:
                     rep.fail(f"{cname}/rqa/{clause}", wit, detail)
 
@@ -656,11 +667,14 @@ def cases(tier, seed):
         for emb in EMBS:
             if emb_len(n, emb) < 1:
                 continue
-            for metric in S.METRICS:
-                if emb is None and metric != "supremum" and n >= 4 and not T:
-                    continue          # scalar, unembedded: the three kernels see the same numbers
-                yield rp_case("RecurrencePlot", x, emb, metric, rqa_every=1 if (T or n <= 4) else 4,
-                              all_metrics=(metric == "supremum"))
+            for mi, metric in enumerate(S.METRICS):
+                if not T and n == 5 and mi != (int(sum(x)) + EMBS.index(emb)) % 3:
+                    continue          # quick: length 5 gets one metric per (series, embedding), cyclically
+                w = rp_case("RecurrencePlot", x, emb, metric, rqa_every=2 if T else 5,
+                            all_metrics=(metric == "supremum" or n == 5))
+                if not T and n == 5 and int(sum(x)) % 2:
+                    w["variants"] = [v for v in w["variants"] if v[2] == "ctor"]
+                yield w
     # ---- 2-d series
     A2 = [list(p) for p in itertools.product(ALPH, repeat=2)]
     for n in range(1, 5 if T else 4):
@@ -686,7 +700,7 @@ def cases(tier, seed):
             for metric in S.METRICS:
                 if n == 5 and not T and metric != S.METRICS[(sum(map(lambda v: 0 if math.isnan(v) else int(v), x)) + n) % 3]:
                     continue
-                yield rp_case("RecurrencePlot", x, emb, metric, mv=True, rich=(n <= 4 or T), rqa_every=3,
+                yield rp_case("RecurrencePlot", x, emb, metric, mv=True, rich=(n <= 4 or T), rqa_every=5,
                               all_metrics=False)
     # missing_values=True without NaN behaves like the plain path
     for x in seqs(ALPH, 1, 3):
@@ -744,7 +758,8 @@ def cases(tier, seed):
                 vs = [["threshold", t] for t in pair_thresholds(Dx, Dy)]
                 vs += [["threshold_std", [1.0, 0.5]], ["recurrence_rate", [0.3, 0.5]], ["recurrence_rate", [1.0, 0.25]]]
                 w = {"cls": cls, "x": x, "y": y, "metric": list(mets), "lag": lag, "exact": True,
-                     "rqa_every": rqa_every, "variants": both(vs)}
+                     "rqa_every": rqa_every,
+                     "variants": both(vs) if (T or n <= 2 or lag % 2 == 0) else [v + ["ctor"] for v in vs]}
                 if emb:
                     w.update(dim=list(dim), tau=list(tau))
                 yield w
@@ -869,11 +884,7 @@ def main(argv=None):
              "pooled std not documented)")
     rep.skip("adaptive_neighborhood_size together with missing values (no documented semantics)")
     rep.skip("|lag| >= number of (embedded) states in joint plots: empty matrix, outside the documented domain")
-    for w in cases(args.tier, args.seed):
-        try:
-            run_case(rep, C, w)
-        except Exception as e:                                   # noqa: BLE001
-            rep.fail("harness/exception", {k: v for k, v in w.items()}, f"{type(e).__name__}: {e}")
+    run_all(rep, PROP, args, C, run_case, cases(args.tier, args.seed), n_workers())
     rep.finish()
 
 
